@@ -348,7 +348,9 @@ fn c03_guarded<T>(c: &mut Ctx, fam: Fam, b: &[u8], entry: u32, f: impl FnOnce() 
 }
 
 fn spin_check(c: &mut Ctx, fam: Fam, b: &[u8], entry: u32, reads: usize) {
-    if reads > b.len() + 2 {
+    // every successful read delivers at least one byte, so a decoder needs at most len + 1 reads; a
+    // generous factor keeps implementations that re-poll a little from being called spinning
+    if reads > 2 * b.len() + 16 {
         c.violation(
             format!("C03:v{}:{}:spin", fam.n(), ENTRY_NAMES[entry as usize]),
             format!("{} transport reads for {} input bytes", reads, b.len()),
